@@ -203,7 +203,7 @@ func (runInfo *runInfoStruct) runVarStmt(stmt *ast.VarStmt) {
 		if env, ok := runInfo.rv.Interface().(*env.Env); ok {
 			rvs[i] = reflect.ValueOf(env.DeepCopy())
 		} else {
-			rvs[i] = runInfo.rv
+			rvs[i] = copyOfElement(runInfo.rv)
 		}
 	}
 
@@ -251,7 +251,7 @@ func (runInfo *runInfoStruct) runLetsStmt(stmt *ast.LetsStmt) {
 		if env, ok := runInfo.rv.Interface().(*env.Env); ok {
 			rvs[i] = reflect.ValueOf(env.DeepCopy())
 		} else {
-			rvs[i] = runInfo.rv
+			rvs[i] = copyOfElement(runInfo.rv)
 		}
 	}
 
@@ -699,6 +699,7 @@ func (runInfo *runInfoStruct) runReturnStmt(stmt *ast.ReturnStmt) {
 	case 1:
 		runInfo.expr = stmt.Exprs[0]
 		runInfo.invokeExpr()
+		runInfo.rv = copyOfElement(runInfo.rv)
 		return
 	}
 	rvs := make([]interface{}, len(stmt.Exprs))
